@@ -7,7 +7,9 @@ CONSTANTS NCalls
 VARIABLES owner, q, c, n
 vars == <<owner, q, c, n>>
 Init == owner = "running" /\ q = <<>> /\ c = <<>> /\ n = 0
-Invoke(kind, src) ==
+(* look = the loop on which the proxy attribute was looked up: it has no influence - what a call does is decided *)
+(* by the loop it is made from, at the time it is made (a bound wrapper may be kept and invoked later)          *)
+Invoke(kind, src, look) ==
     /\ n < NCalls /\ n' = n + 1
     /\ (src = "owner" => owner = "running")
     /\ LET r == InvokeResult(kind, src, owner) IN
@@ -25,7 +27,7 @@ OwnerStep ==
 DirectCoroDone(i) == /\ i \in 1 .. Len(c) /\ c[i].src = "owner" /\ IsCoro(c[i].kind) /\ c[i].ret = "pending"
                      /\ c' = [c EXCEPT ![i].ret = Relayed(c[i].kind)] /\ UNCHANGED <<owner, q, n>>
 Close == /\ owner = "running" /\ owner' = "closed" /\ q' = <<>> /\ UNCHANGED <<c, n>>      \* queued calls are discarded
-Next == (\E k \in Kinds, s \in {"owner", "other"} : Invoke(k, s)) \/ OwnerStep \/ (\E i \in 1 .. NCalls : DirectCoroDone(i)) \/ Close
+Next == (\E k \in Kinds, s \in {"owner", "other"}, lk \in {"owner", "other"} : Invoke(k, s, lk)) \/ OwnerStep \/ (\E i \in 1 .. NCalls : DirectCoroDone(i)) \/ Close
 Spec == Init /\ [][Next]_vars
 
 ExecOnOwner == \A i \in 1 .. Len(c) : c[i].st = "executed" => c[i].execOn = "owner"
